@@ -133,6 +133,10 @@ func scenRoundTrip(r *Run, job *Job, prop string) {
 			if t.Chance(1, 8) && big < bigBudget {
 				p.mode = "oversize"
 				big++
+			} else if p.mode == "ok" && t.Chance(1, 6) && big < bigBudget {
+				// a response of exactly (or one less than) the maximum size, e.g. the echo of a maximum-size event
+				p.respSize = MaxPayload - t.Draw(2)
+				big++
 			}
 		} else {
 			// C14: sizes around the limit at every position, mixed with small ones
@@ -168,9 +172,13 @@ func scenRoundTrip(r *Run, job *Job, prop string) {
 	if t.Chance(1, 3) {
 		r.ReorderNum, r.ReorderDen = 1, 4
 	}
+	initStall := []time.Duration{0, 0, 100 * time.Millisecond, 1500 * time.Millisecond}[t.Draw(4)]
 	e.BehavFor = BehavForExts(exts, func(p *Proc, b *Behav) {
 		if !p.IsRT {
 			return
+		}
+		if initStall > 0 {
+			b.Stalls = map[int]time.Duration{0: initStall} // the runtime takes its time to initialise
 		}
 		b.PerInv = func(inv *Invocation) *InvBehav {
 			pl := plans[inv.N-1]
@@ -191,7 +199,7 @@ func scenRoundTrip(r *Run, job *Job, prop string) {
 		e.Plan = append(e.Plan, InvSpec{Payload: p.payload, CliCtx: p.cliCtx, Trace: p.trace})
 		desc = append(desc, fmt.Sprintf("%s(ev=%d/%d,resp=%d,polls=%d,ctx=%d)", p.mode, p.evSize, p.evClass, p.respSize, p.polls, len(p.cliCtx)))
 	}
-	r.Desc = fmt.Sprintf("%s T=%ds fn=%q exts=%v plan=%v", prop, timeoutSec, fn, exts, desc)
+	r.Desc = fmt.Sprintf("%s T=%ds fn=%q exts=%v init=%v plan=%v", prop, timeoutSec, fn, exts, initStall, desc)
 	r.Logf("%s", r.Desc)
 	e.Stuck = func() { r.Failf(prop+".hang", "plan did not finish within the bound") }
 	e.Run()
